@@ -1248,19 +1248,17 @@ class Unit:
     @lru_cache(maxsize=None)
     def as_ratio(self) -> Tuple["Unit", "Unit"]:
         """Returns this unit, split into a numerator and denominator"""
-        numerator, denominator = self.dimension.as_ratio()
-        return (
-            Unit(
-                self.prefix,
-                {u: e for u, e in self.factors.items() if e >= 0} or {One: 1},
-                numerator,
-            ),
-            Unit(
-                IdentityPrefix,
-                {u: -e for u, e in self.factors.items() if e < 0} or {One: 1},
-                denominator,
-            ),
-        )
+        # the dimension of each part is the product of its own factors' dimensions, which
+        # is not a split of this unit's dimension whenever a factor's dimension is itself a
+        # ratio, or a dimension appears on both sides
+        numerator: Unit = One
+        denominator: Unit = One
+        for unit, exponent in self.factors.items():
+            if exponent >= 0:
+                numerator = numerator * unit**exponent
+            else:
+                denominator = denominator * unit**-exponent
+        return self.prefix * numerator, denominator
 
 
 @total_ordering
